@@ -20,6 +20,7 @@ import (
 	"sort"
 	"strings"
 	"sync"
+	"sync/atomic"
 	"syscall"
 	"time"
 	"unsafe"
@@ -68,6 +69,7 @@ type Sched struct {
 	switches  int
 	waits     int
 	aborted   bool
+	free      bool // watchdog stage one: every task released, nothing scheduled any more, the run's resources still work
 	npend     int
 	nstuck    int
 	stuckTask [MaxTasks]int
@@ -139,7 +141,7 @@ func wake(g *uint32) {
 //go:norace
 func (s *Sched) Cur() int {
 	c := s.cur
-	if c < 0 || s.aborted {
+	if c < 0 || s.aborted || s.free {
 		return -1
 	}
 	if simrt.Goid() == s.goids[c] {
@@ -306,7 +308,7 @@ func (s *Sched) step(me int, finishing bool) bool {
 
 //go:norace
 func (s *Sched) step2(me int, finishing bool) bool {
-	if s.aborted {
+	if s.aborted || s.free {
 		return false
 	}
 	s.yields++
@@ -445,6 +447,12 @@ func (s *Sched) WaitUntil(what string, cond func() bool) bool {
 		}
 	}
 	s.state[me] = stRunnable
+	for s.free && !s.aborted { // released by the watchdog: wait for real
+		if cond() {
+			return true
+		}
+		time.Sleep(200 * time.Microsecond)
+	}
 	return false
 }
 
@@ -481,6 +489,15 @@ func (s *Sched) GoStart(key interface{}) {
 	s.mu.Unlock()
 	if mine == nil {
 		return // not announced (simulator not in control): run freely
+	}
+	if s.isFree() {
+		s.mu.Lock()
+		if !mine.adopted {
+			mine.adopted = true
+			s.wg.Done()
+		}
+		s.mu.Unlock()
+		return
 	}
 	park(g)
 }
@@ -585,7 +602,7 @@ func (s *Sched) Run(names []string, bodies []func(), watchdog time.Duration) *Re
 			if ab, _ := s.Aborted(); !ab {
 				body()
 			}
-			if ab, _ := s.Aborted(); ab {
+			if ab, _ := s.Aborted(); ab || s.isFree() {
 				s.wg.Done()
 				return
 			}
@@ -602,7 +619,31 @@ func (s *Sched) Run(names []string, bodies []func(), watchdog time.Duration) *Re
 	select {
 	case <-s.allDone:
 	case <-time.After(watchdog):
-		res.Blocked = blockedInGorm()
+		res.Blocked = BlockedInGorm()
+		if len(res.Blocked) > 0 {
+			// A goroutine sits on a real lock.  Either nobody will ever release it, or its
+			// holder is a task the scheduler has parked (code that holds a lock across a
+			// scheduling point: slow under this scheduler, not stuck).  Decide by letting
+			// every task run freely for a while: stuck = blocked now and still blocked then.
+			s.freeRun()
+			select {
+			case <-s.allDone:
+				res.Blocked = nil
+			case <-time.After(FreeRunGrace):
+				still := map[string]int{}
+				for _, b := range BlockedInGorm() {
+					still[b]++
+				}
+				var keep []string
+				for _, b := range res.Blocked {
+					if still[b] > 0 {
+						still[b]--
+						keep = append(keep, b)
+					}
+				}
+				res.Blocked = keep
+			}
+		}
 		s.abortFromOutside("watchdog")
 	}
 	if ab, _ := s.Aborted(); ab {
@@ -618,6 +659,33 @@ func (s *Sched) Run(names []string, bodies []func(), watchdog time.Duration) *Re
 
 //go:norace
 func (s *Sched) abortFromOutside(reason string) { s.abort(reason) }
+
+//go:norace
+func (s *Sched) isFree() bool { return s.free }
+
+// freeRun releases every parked task without tearing anything down: from here on
+// the tasks run side by side for real (no schedule, results worthless) - the only
+// question left is whether they can finish.
+//
+//go:norace
+func (s *Sched) freeRun() {
+	s.free = true
+	atomic.AddInt64(&FreeRuns, 1)
+	for i := 0; i < s.n; i++ {
+		if s.state[i] != stDone && s.gates[i] != nil {
+			wake(s.gates[i])
+		}
+	}
+	s.mu.Lock()
+	for _, c := range s.pending {
+		if c.arrived && !c.adopted && c.gate != nil {
+			c.adopted = true
+			wake(c.gate)
+			s.wg.Done()
+		}
+	}
+	s.mu.Unlock()
+}
 
 //go:norace
 func (s *Sched) collect(res *Result) {
@@ -639,9 +707,17 @@ func (s *Sched) collect(res *Result) {
 	}
 }
 
-// blockedInGorm lists the goroutines that wait on a real lock or channel with a
+// FreeRuns counts the runs of this process that ended in a free-run phase (their
+// race-detector reports are void: the shims' one-at-a-time assumptions do not hold there).
+var FreeRuns int64
+
+// FreeRunGrace is how long released tasks get to finish before a goroutine that is
+// still blocked inside gorm counts as stuck.
+var FreeRunGrace = 3 * time.Second
+
+// BlockedInGorm lists the goroutines that wait on a real lock or channel with a
 // gorm frame on their stack and are not parked by the scheduler.
-func blockedInGorm() []string {
+func BlockedInGorm() []string {
 	buf := make([]byte, 4<<20)
 	buf = buf[:runtime.Stack(buf, true)]
 	var out []string
